@@ -17,14 +17,14 @@ from ..graphs import build_clean_network, snapshot, same_snapshot
 ID = "C13"
 RULE = ("annotated simple networks: (a) clean motif networks from the harness builder with 1..3 clique/cycle topologies, 2..4 joint-degree "
         "classes incl. self-paired classes; (b) arbitrary simple graphs (G(n,p), n<=30) with random topology labels and either consistent or "
-        "arbitrary annotations (jd[i] >= 1 on incident topologies), incl. a topology with a single edge or none, names with shared prefixes; "
+        "arbitrary annotations (jd[i] >= 1 on incident topologies), incl. a topology with a single edge or none, names with shared prefixes; half of the networks with vertices inserted in shuffled order and/or relabelled to non-contiguous ints; "
         "histories: 1..4 get_ejks() calls per extractor, up to 3 extractors interleaved over 1..2 graphs, plus the overall-degree variant; in 30% of the repeat calls the network is rewired in place (degree-preserving double edge swaps inside one topology) between two extractions; "
         "non-trivial = a history with >= 2 calls on one extractor and >= 2 distinct excess classes; distinct = SHA-1 of the annotated graph + history")
 ASSUMPTIONS = ["matrix entries compared at 1e-12; an absent key means 0", "the law is stated in terms of the vertex annotation, so arbitrary annotations are in scope"]
 HEADLINE = ["histories", "get_ejks_calls", "hook_hits", "matrices_compared", "entries_compared", "repeat_calls", "self_paired_entries", "overall_variant_checks",
-            "arbitrary_annotation", "builder_networks", "single_edge_topology", "in_place_rewirings"]
+            "arbitrary_annotation", "builder_networks", "single_edge_topology", "in_place_rewirings", "scrambled_vertex_order_or_labels"]
 REQUIRED = {t: {"repeat_calls": 50, "hook_hits": 100, "self_paired_entries": 50, "overall_variant_checks": 50, "arbitrary_annotation": 20,
-                "builder_networks": 20, "single_edge_topology": 5, "in_place_rewirings": 20} for t in ("quick", "thorough")}
+                "builder_networks": 20, "single_edge_topology": 5, "in_place_rewirings": 20, "scrambled_vertex_order_or_labels": 30} for t in ("quick", "thorough")}
 TOL = 1e-12
 NAMESETS = [["2-clique"], ["2-clique", "3-clique"], ["2-clique-blue", "2-clique-red"], ["a", "b", "c"], ["3-clique", "2-clique"],
             ["x-y", "x-y-z"], ["edge", "triangle", "square"], ["t"]]
@@ -82,6 +82,27 @@ def make_graph(rng, res):
     if arbitrary:
         res.count("arbitrary_annotation")
     return G, names, "arbitrary" if arbitrary else "consistent"
+
+
+def scramble(rng, G):
+    """same annotated network, but vertices inserted in shuffled order and (half of the time) relabelled to non-contiguous ints:
+    vertex labels are labels, not positions"""
+    relabel = rng.random() < 0.5
+    f = (lambda v: 3 * v + 5) if relabel else (lambda v: v)
+    H = nx.Graph()
+    ns = list(G.nodes(data=True))
+    rng.shuffle(ns)
+    for v, d in ns:
+        H.add_node(f(v), **{})
+        H.nodes[f(v)].update(d)
+    es = list(G.edges(data=True))
+    rng.shuffle(es)
+    for u, v, d in es:
+        if rng.random() < 0.5:
+            u, v = v, u
+        H.add_edge(f(u), f(v))
+        H.edges[f(u), f(v)].update(d)
+    return H
 
 
 def reference(G, names):
@@ -157,6 +178,10 @@ def run_case(case):
     res = Result()
     rng = random.Random(case["seed"])
     graphs = [make_graph(rng, res) for _ in range(rng.choice([1, 1, 2]))]
+    for i, (G, names, kind) in enumerate(graphs):
+        if rng.random() < 0.5:
+            graphs[i] = (scramble(rng, G), names, kind)
+            res.count("scrambled_vertex_order_or_labels")
     refs = [reference(G, names) for G, names, _ in graphs]
     snaps = [snapshot(G) for G, _, _ in graphs]
     extractors = []
